@@ -280,6 +280,69 @@ def c11_3b(ck, prog):
         r.ok('get_dispatch_status:status-follows-loader-queue')
 
 
+def c11_5(ck, prog):
+    r = ck.rule('C11.5', 'one notion of "end of message": wherever the loader sizes a read or skips a message from '
+                'the framing lengths reported by _dbus_header_have_message_untrusted, the message length is exactly '
+                'header_len + body_len (the value load_message consumes)', 'TS',
+                breaks='a read sized past the end of a partial message swallows the first bytes of the next one: '
+                       'its file descriptors are dropped and the stream is declared corrupt for some chunkings',
+                floor=2)
+    M = 'dbus/dbus-message.c'
+    n = 0
+    for name in ('_dbus_message_loader_get_buffer', '_dbus_message_loader_queue_messages'):
+        fn = prog.fn(name, M)
+        lens = {}
+        for b, i, c in fn.calls('_dbus_header_have_message_untrusted'):
+            for idx, what in ((4, 'header_len'), (5, 'body_len')):
+                a = strip_addr(c['args'][idx]) if len(c['args']) > idx else None
+                if a is not None and is_ref(a):
+                    lens[a['id']] = what
+        if len(set(lens.values())) < 2:
+            if name.endswith('queue_messages'):
+                raise AnalysisBroken('%s: framing lengths not found' % name)
+            continue            # built without unix-fd passing: get_buffer has no slow path
+        hid = [i for i, w in lens.items() if w == 'header_len']
+        bid_ = [i for i, w in lens.items() if w == 'body_len']
+
+        def is_sum(e):
+            while e is not None and e.get('k') in ('paren', 'cast'):
+                e = e.get('e')
+            if e is None or e.get('k') != 'bin' or e['op'] != '+':
+                return False
+            ids = {e['l'].get('id') if is_ref(e['l']) else None, e['r'].get('id') if is_ref(e['r']) else None}
+            return bool(ids & set(hid)) and bool(ids & set(bid_)) and len(ids) == 2
+        for b, i, ev in fn.events():
+            tops = []
+            for lhs, how, rhs in written_lvalues(ev):
+                if rhs is not None and how in ('=', 'decl', '+=', '-=') and isinstance(rhs, dict) and rhs.get('k') != 'call':
+                    tops.append(('value stored in %s' % estr(lhs), rhs))
+            if ev['ev'] == 'call':
+                for ai, a in enumerate(ev['e']['args']):
+                    tops.append(('argument %d of %s' % (ai, ev['e'].get('callee')), a))
+            for what, top in tops:
+                if is_ref(top) or not any(is_ref(x) and x.get('id') in lens for x in walk(top)):
+                    continue
+                if top.get('k') == 'un' and top.get('op') == '&':
+                    continue
+                n += 1
+                key = '%s:%s' % (name, what)
+                # every maximal arithmetic expression over the framing lengths is header_len + body_len,
+                # or that sum compared / combined with other quantities
+                t2 = top
+                while t2.get('k') in ('paren', 'cast') and isinstance(t2.get('e'), dict):
+                    t2 = t2['e']
+                if t2.get('k') == 'bin' and t2['op'] in ('<', '>', '<=', '>=', '==', '!='):
+                    sides = [x for x in (t2['l'], t2['r']) if any(is_ref(y) and y.get('id') in lens for y in walk(x))]
+                else:
+                    sides = [t2]
+                if all(is_sum(x) for x in sides):
+                    r.ok(key, {'site': '%s:%d' % (M, ev['line'])})
+                else:
+                    r.violation(key, name, M, ev['line'],
+                                'the message length is derived as %s, not as header_len + body_len' % estr(top)[:120])
+    r.note('%d uses of the framing lengths examined' % n)
+
+
 def run(ck):
     ck.explanation = (
         'Static rules over dbus-message.c, dbus-marshal-header.c, dbus-transport.c, dbus-auth.c: load_message uses '
@@ -302,6 +365,7 @@ def run(ck):
             ck.rule = save
         c11_3(ck, prog)
         c11_3b(ck, prog)
+        c11_5(ck, prog)
         from rules.C05 import QUEUES, c05_4
         r4 = ck.rule('C11.4', 'the loader queue and the connection\'s incoming queue are FIFOs (shared with C05.4)',
                      'TAB', floor=4)
